@@ -52,6 +52,9 @@ def live_key(t, spec):
         return MISSING, None
     if spec is None:
         return None, None
+    if spec == 'callnone':
+        # a callable attribute whose result is None: the key is None
+        return (lambda: None), None
     if t == 'date':
         v = datetime.date(2020, 1, spec)
         return v, v
@@ -311,6 +314,9 @@ def strategy():
             if f in ('nocase', 'absf'):
                 # a comparison function of the author's sees real keys only
                 return vals
+            if t == 'call':
+                return st.one_of(vals, vals, vals, vals, st.none(),
+                                 st.just('missing'), st.just('callnone'))
             return st.one_of(vals, vals, vals, vals, st.none(),
                              st.just('missing'))
         row = st.tuples(*[key_for(t, f[0]) for t, f in zip(types, funcs)])
